@@ -386,3 +386,5 @@ def run(ctx):
     C14.r7_no_loss(ctx, 'C19.R9', C14.GOAWAY_SLOT, floor=3)  # a GOAWAY that is due is never dropped under write back-pressure
     boundaries.check_guards(ctx, 'C19.RG', 'C19')
     boundaries.check_calls(ctx, 'C19.RC', 'C19')
+    from .. import boundaries as _b
+    _b.check_predicates(ctx, 'C19.RP', 'C19')
